@@ -3,6 +3,7 @@ package fastlog
 import (
 	"math/rand"
 	"net/netip"
+	"strconv"
 	"testing"
 )
 
@@ -51,4 +52,22 @@ func itoa(v uint32) string {
 		v /= 10
 	}
 	return string(b)
+}
+
+func TestVerifRefDec64(t *testing.T) {
+	r := rand.New(rand.NewSource(2))
+	check := func(v int64) {
+		if got, want := string(verifDec64(v)), strconv.FormatInt(v, 10); got != want {
+			t.Fatalf("dec64 %d: ref %q strconv %q", v, got, want)
+		}
+	}
+	for _, b := range []int64{0, 1 << 16, 1 << 31, 1 << 32, 1 << 48, 10, 1000, 1e9, 1e10, 1e18, 1<<63 - 300, -1<<63 + 300} {
+		for d := int64(-300); d <= 300; d++ {
+			check(b + d)
+			check(-b + d)
+		}
+	}
+	for it := 0; it < 200000; it++ {
+		check(int64(r.Uint64()) >> uint(r.Intn(64)))
+	}
 }
